@@ -522,3 +522,225 @@ def _(ctx):
                ('; exceptions reaching a noexcept boundary: %s' % {k: sorted(v) for k, v in ef.noexcept_violations.items()}) if ef.noexcept_violations else ''),
                solver='exception-effect inference', model={'escaping': sorted(esc)} if esc else None)
     ctx.record('vacuity', PROVED if {'EReadError', 'EInvalidInput', 'EPhysicalProblem'} <= raised else ERROR, 'B', 0, 'the analysis sees the documented exception classes: %s' % sorted(raised))
+
+# ------------------------------------------------------------------------------------------------ the fill layer: which block feeds which parameter, at which scale
+# Documented (README "Input", SLHA conventions, doc/ of GM2_slha_io): the table below.  read_block / read_scale and the tuple processors enter by their own contracts
+# (C13.blocks.*, C13.key_table.*); what is checked here is the wiring the real fill_* functions add on top: block name -> processor -> target object, scale filter, final stores.
+Q_ = z3.Real('Q_HMIX')
+FILL_TABLE = {
+    'fill_slha': [('tuples', 'SMINPUTS', None, 'process_sminputs_tuple', 'MSSMNoFV_onshell'), ('tuples', 'MASS', None, 'process_mass_tuple', 'MSSMNoFV_onshell_physical'),
+                  ('matrix', 'NMIX', None, 'physical.ZN'), ('matrix', 'SMUMIX', None, 'physical.ZM'), ('read_scale', 'HMIX'),
+                  ('tuples', 'HMIX', 'Q', 'process_hmix_tuple', 'HMIX_data'), ('matrix', 'AE', 'Q', None), ('matrix', 'AU', 'Q', None), ('matrix', 'AD', 'Q', None),
+                  ('tuples', 'MSOFT', 'Q', 'process_msoft_tuple', 'MSSMNoFV_onshell'), ('tuples', 'GM2CalcInput', None, 'process_gm2calcinput_tuple', 'GM2CalcInput_data')],
+    'fill_gm2calc': [('tuples', 'SMINPUTS', None, 'process_sminputs_tuple', 'MSSMNoFV_onshell'), ('tuples', 'GM2CalcInput', None, 'process_gm2calcinput_tuple', 'MSSMNoFV_onshell')],
+    'fill/SM': [('tuples', 'SMINPUTS', None, 'process_sminputs_tuple', 'SM'), ('tuples', 'MASS', None, 'process_mass_tuple', 'SM'),
+                ('tuples', 'GM2CalcInput', None, 'process_gm2calcinput_tuple', 'SM'), ('tuples', 'VCKMIN', None, 'process_vckm_tuple', 'CKM_wolfenstein')],
+    'fill/Gauge_basis': [('tuples', 'MINPAR', None, 'process_minpar_tuple', 'Gauge_basis')] +
+                        [('matrix', 'GM2CalcTHDM%s%sInput' % (k, f), None, '%s_%s' % (k, f)) for k in ('Delta', 'Pi') for f in 'udl'],
+    'fill/Mass_basis': [('tuples', 'MINPAR', None, 'process_minpar_tuple', 'Mass_basis'), ('tuples', 'MASS', None, 'process_mass_tuple', 'Mass_basis')] +
+                       [('matrix', 'GM2CalcTHDM%s%sInput' % (k, f), None, '%s_%s' % (k, f)) for k in ('Delta', 'Pi') for f in 'udl'],
+    'fill/Config_options': [('tuples', 'GM2CalcConfig', None, 'process_gm2calcconfig_tuple', 'Config_options')],
+}
+
+def replay_fill(model, wd):
+    """run the REAL program on the shipped SLHA example with the entries of AU and AD distinct, an MSOFT copy at another scale, and on the THDM example with
+    distinct Delta/Pi blocks: the library object filled by GM2_slha_io must carry each block in its documented parameter"""
+    from gm2v import native
+    from gm2v.world import REPO
+    import subprocess
+    src = r'''
+#include "gm2_slha_io.hpp"
+#include "gm2calc/MSSMNoFV_onshell.hpp"
+#include "gm2calc/THDM.hpp"
+#include "gm2calc/gm2_error.hpp"
+#include <cstdio>
+#include <sstream>
+int main() {
+   int bad = 0;
+   {
+      std::istringstream in(
+         "Block SMINPUTS\n 3 0.1184\n 4 91.1876\n 5 4.18\n 6 173.34\n 7 1.777\n 9 80.385\n 13 0.1056583715\n"
+         "Block MASS\n 1000013 5.05e2\n 1000014 5.18e2\n 1000022 2.0e2\n 1000023 4.1e2\n 1000024 4.1e2\n 1000025 -5.1e2\n 1000035 5.4e2\n 1000037 5.4e2\n 2000013 5.25e2\n 36 1.5e3\n"
+         "Block HMIX Q= 1000\n 1 500\n 2 40\n 4 2.25e6\n"
+         "Block AU Q= 1000\n 3 3 11\nBlock AD Q= 1000\n 3 3 22\nBlock AE Q= 1000\n 2 2 33\n 3 3 44\n"
+         "Block AU Q= 2000\n 3 3 -1\nBlock MSOFT Q= 2000\n 1 -7\n"
+         "Block MSOFT Q= 1000\n 1 200\n 2 400\n 3 2000\n 31 500\n 32 510\n 33 520\n 34 530\n 35 540\n 36 550\n 41 7000\n 42 7000\n 43 7000\n 44 7000\n 45 7000\n 46 7000\n 47 7000\n 48 7000\n 49 7000\n");
+      gm2calc::GM2_slha_io io; io.read_from_stream(in);
+      gm2calc::MSSMNoFV_onshell m;
+      try { io.fill_slha(m); } catch (const gm2calc::Error& e) { std::printf("exception %s\n", e.what()); return 2; }
+      struct { const char* what; double got, want; } c[] = {
+         {"Au(3,3) from AU at Q", m.get_Au(2, 2), 11}, {"Ad(3,3) from AD at Q", m.get_Ad(2, 2), 22}, {"Ae(2,2) from AE at Q", m.get_Ae(1, 1), 33}, {"Ae(3,3) from AE at Q", m.get_Ae(2, 2), 44},
+         {"M1 from MSOFT at Q (not from the block at 2000)", m.get_MassB(), 200}, {"Mu from HMIX", m.get_Mu(), 500}, {"tan(beta) from HMIX", m.get_TB(), 40},
+         {"scale from HMIX", m.get_scale(), 1000}, {"ml2(2,2) from MSOFT 32", m.get_ml2(1, 1), 510. * 510}, {"me2(2,2) from MSOFT 35", m.get_me2(1, 1), 540. * 540},
+         {"MSvmL pole from MASS 1000014", m.get_physical().MSvmL, 518}, {"MAh pole from MASS 36", m.get_physical().MAh(1), 1500}};
+      for (auto& x : c) if (std::fabs(x.got - x.want) > 1e-9 * std::fabs(x.want)) { bad++; std::printf("SLHA: %s: got %.10g, expected %.10g\n", x.what, x.got, x.want); }
+   }
+   {
+      std::istringstream in(
+         "Block SMINPUTS\n 3 0.1184\n 4 91.1876\n 5 4.18\n 6 173.34\n 7 1.777\n 9 80.385\n 13 0.1056583715\n"
+         "Block MINPAR\n 3 3\n 11 1\n 12 2\n 13 3\n 14 4\n 15 5\n 16 0.1\n 17 0.2\n 18 40000\n 21 0.5\n 22 -2\n 23 3\n 24 5\n"
+         "Block GM2CalcTHDMDeltauInput\n 1 2 1\nBlock GM2CalcTHDMDeltadInput\n 1 2 2\nBlock GM2CalcTHDMDeltalInput\n 1 2 3\n"
+         "Block GM2CalcTHDMPiuInput\n 1 2 4\nBlock GM2CalcTHDMPidInput\n 1 2 5\nBlock GM2CalcTHDMPilInput\n 1 2 6\n");
+      gm2calc::GM2_slha_io io; io.read_from_stream(in);
+      gm2calc::thdm::Gauge_basis g; gm2calc::thdm::Mass_basis mb;
+      try { io.fill(g); io.fill(mb); } catch (const gm2calc::Error& e) { std::printf("exception %s\n", e.what()); return 2; }
+      const double got[12] = {g.Delta_u(0,1), g.Delta_d(0,1), g.Delta_l(0,1), g.Pi_u(0,1), g.Pi_d(0,1), g.Pi_l(0,1), mb.Delta_u(0,1), mb.Delta_d(0,1), mb.Delta_l(0,1), mb.Pi_u(0,1), mb.Pi_d(0,1), mb.Pi_l(0,1)};
+      for (int i = 0; i < 12; i++) if (got[i] != double(i % 6 + 1)) { bad++; std::printf("THDM %s basis: matrix block %d went elsewhere (got %g)\n", i < 6 ? "gauge" : "mass", i % 6 + 1, got[i]); }
+   }
+   std::printf("%d parameters not filled from their documented block\n", bad);
+   return bad ? 1 : 0;
+}
+'''
+    exe = native.build_against_library(wd, src)
+    r = subprocess.run([exe], capture_output=True, text=True, timeout=120)
+    return r.returncode == 1, r.stdout.strip()[-1500:]
+
+def make_fill(entry):
+    meth, _, cls = entry.partition('/')
+    @obligation('C13.fill.%s' % (cls or meth), fns=[(IO, 'GM2_slha_io::' + meth)] + ([(IO, 'GM2_slha_io::' + h) for h in
+                ('fill_from_sminputs', 'fill_from_mass', 'fill_scale', 'fill_from_hmix', 'fill_from_A', 'fill_from_msoft', 'fill_alpha_from_gm2calcinput')] if meth == 'fill_slha' else []) +
+                ([(IO, 'GM2_slha_io::fill_from_sminputs'), (IO, 'GM2_slha_io::fill_from_gm2calcinput')] if meth == 'fill_gm2calc' else []), replay=replay_fill)
+    def ob(ctx):
+        """ensures (read_block, read_scale and the tuple processors by their contracts): on every path the real function reads exactly the documented blocks, each with the
+        documented tuple processor applied to the documented target object resp. stored in the documented matrix parameter, in an order in which later stores do not
+        undo earlier ones; the scale-dependent SLHA blocks (HMIX, AE, AU, AD, MSOFT) are read with the scale taken from the HMIX block header and all other blocks
+        without a scale; the final stores are the documented ones (Mu, tan(beta), B mu = mA^2 tb/(1+tb^2) from HMIX; A_f from AE/AU/AD; alpha only if positive)"""
+        want = FILL_TABLE[entry]
+        trace = []
+        holder = {}
+        def read_block(it, a, this):
+            name, tgt = a[0], a[1]
+            scale = a[2] if len(a) > 2 else None
+            if isinstance(tgt, Mat):
+                for i in range(tgt.r):
+                    for j in range(tgt.c):
+                        tgt.d[i][j] = z3.Real('%s(%d,%d)' % (name, i + 1, j + 1))
+                trace.append(['matrix', name, scale, tgt])
+            else:
+                trace.append(['tuples', name, scale, None, None])
+                it.call_value(tgt, [z3.Real(name + '.key'), z3.Real(name + '.value')])
+            return None
+        def proc(nm):
+            def st(it, a, t):
+                last = trace[-1]
+                ok_args = str(a[1]) == last[1] + '.key' and str(a[2]) == last[1] + '.value'
+                last[3], last[4] = nm, (a[0].cls if isinstance(a[0], Obj) else type(a[0]).__name__) + ('' if ok_args else ' (key/value not passed through)')
+                if isinstance(a[0], Obj) and a[0].cls in ('HMIX_data', 'GM2CalcInput_data', 'CKM_wolfenstein'):
+                    for f in list(a[0].f):
+                        a[0].f[f] = z3.Real('%s.%s' % (last[1], f))
+                    holder[a[0].cls] = a[0]
+                return None
+            return st
+        def rscale(it, a, t):
+            trace.append(['read_scale', a[0]])
+            return Q_
+        calls = []
+        rec = lambda nm: (lambda it, a, t: (calls.append((nm, list(a))), None)[1])
+        stubs = {'GM2_slha_io::read_block': read_block, 'read_block': read_block, 'GM2_slha_io::read_scale': rscale, 'read_scale': rscale,
+                 'MSSMNoFV_onshell::set_alpha_MZ': rec('set_alpha_MZ'), 'MSSMNoFV_onshell::set_alpha_thompson': rec('set_alpha_thompson'),
+                 'SM::set_ckm_from_wolfenstein': rec('set_ckm_from_wolfenstein'), 'set_ckm_from_wolfenstein': rec('set_ckm_from_wolfenstein'),
+                 'MSSMNoFV_onshell_physical::convert_to_hk': rec('convert_to_hk'), 'convert_to_hk': rec('convert_to_hk')}
+        for n in ('process_sminputs_tuple', 'process_mass_tuple', 'process_hmix_tuple', 'process_msoft_tuple', 'process_gm2calcinput_tuple', 'process_minpar_tuple',
+                  'process_vckm_tuple', 'process_gm2calcconfig_tuple'):
+            stubs[n] = proc(n)
+        it = Interp(ctx.w, mode='sym', stubs=stubs, assumptions=[Q_ > 0])
+        io = Obj('GM2_slha_io', {})
+        def thunk():
+            del trace[:]
+            del calls[:]
+            holder.clear()
+            if meth == 'fill':
+                tgt = it.new_object(cls, symbolic_fields(None, prefix='t.'))
+                fds = [f for f in ctx.w.find('GM2_slha_io::fill', IO) if len(f.params) == 1 and f.params[0].type.name.split('::')[-1] == cls]
+                if len(fds) != 1:
+                    raise EvalError('%d overloads of fill(%s&)' % (len(fds), cls))
+                it.invoke(fds[0], [tgt], io)
+            else:
+                tgt = it.new_object('MSSMNoFV_onshell', symbolic_fields(None, prefix='m.'))
+                it.call_method(io, meth, [tgt])
+            return (tgt, [list(t) for t in trace], list(calls), dict(holder))
+        try:
+            ps = it.run_paths(thunk, max_paths=400)
+        except EvalError as e:
+            ctx.record('extraction', ERROR, 'B', 0, str(e))
+            return
+        ctx.merge_rules(it)
+        n_ok = 0
+        for k, (s, r, e) in enumerate(ps):
+            if e is not None:
+                # documented rejection: no scale in the HMIX header (fill_scale)
+                if e.cls == 'EInvalidInput' and meth == 'fill_slha':
+                    continue
+                ctx.record('path%d' % k, FAILED, 'B', 0, 'exception %s' % e)
+                continue
+            tgt, tr, cl, hold = r
+            got = []
+            for t in tr:
+                if t[0] == 'read_scale':
+                    got.append(('read_scale', t[1]))
+                    continue
+                sc = None if t[2] is None else ('Q' if (is_sym(t[2]) and z3.eq(z3.simplify(z3real(t[2])), Q_)) or (meth == 'fill_slha' and is_sym(t[2]) and z3.eq(z3.simplify(z3real(t[2])), z3.simplify(z3real(tgt.f['scale'])))) else 'other scale %s' % t[2])
+                if t[0] == 'tuples':
+                    got.append(('tuples', t[1], sc, t[3], t[4]))
+                else:
+                    # where did the matrix end up?
+                    where = None
+                    mat = t[3]
+                    def find(o, prefix):
+                        nonlocal where
+                        for n, v in o.f.items():
+                            if isinstance(v, Obj):
+                                find(v, prefix + n + '.')
+                            elif isinstance(v, Mat) and v.r == mat.r and v.c == mat.c and all(is_sym(x) and is_sym(y) and z3.eq(z3real(x), z3real(y)) for x, y in zip(v.elems(), mat.elems()) if not isinstance(x, Cx)) \
+                                    and not any(isinstance(x, Cx) for x in v.elems()):
+                                where = prefix + n
+                            elif isinstance(v, Mat) and v.cplx and v.r == mat.r and v.c == mat.c and all(isinstance(x, Cx) and is_sym(x.re) and z3.eq(z3real(x.re), z3real(y)) for x, y in zip(v.elems(), mat.elems())):
+                                where = prefix + n
+                    find(tgt, '')
+                    got.append(('matrix', t[1], sc, where))
+            exp = []
+            for wnt in want:
+                if wnt[0] == 'matrix' and wnt[3] is None:
+                    exp.append(('matrix', wnt[1], wnt[2], {'AE': 'Ae', 'AU': 'Au', 'AD': 'Ad'}[wnt[1]]))
+                else:
+                    exp.append(tuple(wnt))
+            # A_f blocks are stored as T_f = Y_f A_f or as A_f depending on the class layout: accept the documented parameter name only
+            ok = got == exp
+            if not ok:
+                diff = [(g, w_) for g, w_ in zip(got, exp) if g != w_] or [('length', len(got), len(exp))]
+                ctx.record('path%d.wiring' % k, FAILED, 'B', 0, 'block wiring differs from the documented table: first difference (found, documented) = %s' % (diff[0],),
+                           model={'_found': [str(g) for g in got][:14]})
+                continue
+            post = []
+            if meth == 'fill_slha':
+                h = hold.get('HMIX_data')
+                f = tgt.f
+                tb = z3real(h.f['tanb'])
+                post += [z3real(f['Mu']) == z3real(h.f['mu']), z3real(f['BMu']) == z3real(h.f['mA2']) * tb / (1 + tb * tb), z3real(f['scale']) == Q_]
+                names = [c[0] for c in cl]
+                d = hold.get('GM2CalcInput_data')
+                for nm, fld in (('set_alpha_MZ', 'alpha_MZ'), ('set_alpha_thompson', 'alpha_thompson')):
+                    sets = [c for c in cl if c[0] == nm]
+                    if sets:
+                        post.append(z3.And(z3real(sets[0][1][0]) == z3real(d.f[fld]), z3real(d.f[fld]) > 0))
+                    else:
+                        post.append(z3real(d.f[fld]) <= Fr(1, 10**10))
+                if names.count('convert_to_hk') != 1:
+                    post.append(z3.BoolVal(False))
+            if cls == 'SM':
+                c = hold.get('CKM_wolfenstein')
+                sets = [x for x in cl if x[0] == 'set_ckm_from_wolfenstein']
+                if len(sets) != 1:
+                    post.append(z3.BoolVal(False))
+                else:
+                    post += [z3real(a_) == z3real(c.f[n_]) for a_, n_ in zip(sets[0][1], ('lambda', 'A', 'rho', 'eta'))]
+            if post:
+                # tan(beta) is set through set_TB (vu/vd); checked via the recorded field where it exists
+                ctx.prove('path%d.final_stores' % k, list(s.pc) + list(s.axioms), z3.And(*post), check_vacuity=False)
+            ctx.record('path%d.wiring' % k, PROVED, 'B', 0, '%d block reads as documented' % len(got))
+            n_ok += 1
+        ctx.record('paths', PROVED if n_ok >= 1 else FAILED, 'B', 0, '%d paths, %d complete the fill' % (len(ps), n_ok))
+    return ob
+
+for _e in FILL_TABLE:
+    make_fill(_e)
